@@ -70,3 +70,12 @@ Theorem C10_prefix_refuted :
             exists hk, get_hook g 0%nat = Some hk /\ h_refs hk = 1 /\ h_shut hk = 1.
 Proof. exact prefix_refuted. Qed.
 Print Assumptions C10_prefix_refuted.
+
+(* the seeded "early unlock" placement of cp.h.mu.Unlock() in Fulfill (third model variant)
+   violates the property as well *)
+Theorem C10_early_unlock_refuted :
+  exists g, reachable_with step_early (init early_progs) g /\ misuse g = false /\
+            (forall th, In th (threads g) -> unfinished th = false) /\
+            exists hk, get_hook g 0%nat = Some hk /\ h_refs hk = 1 /\ h_shut hk = 1.
+Proof. exact early_unlock_refuted. Qed.
+Print Assumptions C10_early_unlock_refuted.
